@@ -291,7 +291,7 @@ func run(c *hc.Ctx) error {
 	}
 
 	// ---- 1. sequences of writes → wire → peer reads with random buffer sizes
-	nseq := c.N(500, 20000)
+	nseq := c.N(500, 6000)
 	for i := 0; i < nseq; i++ {
 		nw := r.Range(1, 5)
 		big := r.Chance(12)
